@@ -5,7 +5,7 @@ from .absint import *
 from .kmodel import KModel
 from .poly import Rat
 
-MON = 'vector_extensions::Monotonic'
+MON = 'Monotonic'
 MONO_VALUES = {
     'Rs': Enum(MON, 'Rising', {'strict': B(True)}),
     'Rn': Enum(MON, 'Rising', {'strict': B(False)}),
@@ -83,13 +83,13 @@ class BModel(KModel):
     def call(self, name, cal, args, e, frame):
         last = name.split('::')[-1]
         a0 = deref_all(args[0]) if args else None
-        if name.endswith('VectorExtensions>::monotonic_prop') or name == 'vector_extensions::VectorExtensions::monotonic_prop':
+        if name.endswith('VectorExtensions>::monotonic_prop') or name == 'VectorExtensions::monotonic_prop':
             if isinstance(a0, Obj) and a0.kind == 'ndarr' and a0.d['role'] == 'axis':
                 import copy
                 self.questions.append(('mono', a0.d['name']))
                 return copy.deepcopy(MONO_VALUES[self.scn['mono'][a0.d['name']]])
             raise Unsupported("monotonic_prop of something that is not one of the builder's axes", e)
-        if name in ('interp1d::strategies::Interp1DStrategyBuilder::build', 'interp2d::strategies::Interp2DStrategyBuilder::build'):
+        if name in ('Interp1DStrategyBuilder::build', 'Interp2DStrategyBuilder::build'):
             self.builds.append({'self': deref_all(args[0]), 'args': [deref_all(a) for a in args[1:]], 'where': line_of(e)})
             if self.scn.get('build', 'ok') == 'ok':
                 self.finished = Obj('finished_strategy')
